@@ -821,3 +821,99 @@ def c25(pid, spec, tier, seed):
                     res['samples'].append(t[:300])
             res['dist']['variants-%d' % len(o['results'])] = res['dist'].get('variants-%d' % len(o['results']), 0) + 1
     return res
+
+
+def ident_grammars(rng, n):
+    out = [
+        ('collide-terminals', '%start S\n%%\nS: "+" | "\\+" | \'+\' | "plus" | /\\+\\+/ | "Plus";\n'),
+        ('numeric-suffixes', '%start S\n%%\nS: A | A1 | A2 { A } [ A1 ];\nA: "a";\nA1: "b";\nA2: "c" { "d" };\n'),
+        ('case-variants', '%start start\n%%\nstart: my_nt MyNt My_Nt;\nmy_nt: "a";\nMyNt: "b";\nMy_Nt: "c";\n'),
+        ('keywords', '%start S\n%%\nS: type match fn_ r#x;\ntype: "t";\nmatch: "m";\nfn_: "f";\n'),
+        ('self-nt', '%start S\n%%\nS: self;\nself: "s";\n'),
+        ('Self-nt', '%start S\n%%\nS: Self;\nSelf: "s";\n'),
+        ('crate-nt', '%start S\n%%\nS: crate super;\ncrate: "c";\nsuper: "s";\n'),
+        ('underscore-nt', '%start S\n%%\nS: _ "x";\n_: "u";\n'),
+        ('blank-terminal', '%start S\n%%\nS: " " "  " "x";\n'),
+        ('member-names', '%start S\n%%\nS: A@x A@x2 "a"@x3 [ A@y ] { A@z };\nA: "a"@a "a"@a2;\n'),
+        ('same-member', '%start S\n%%\nS: A@x "b"@x;\nA: "a";\n'),
+    ]
+    specials = ['"+"', '"-"', '"\\*"', "'*'", '"=="', '"="', '"!"', '"<="', '"<"', '","', '";"', '"a"', '"A"', '"a1"', '"_"', '"%"', '"#"', '"~"', '"\\|"', '"&&"']
+    for i in range(n):
+        ts = rng.sample(specials, rng.randint(2, 7))
+        nts = rng.sample(['S', 'Item', 'item', 'Item1', 'List', 'ItemList', 'ItemOpt', 'Type', 'type_', 'Box1'], rng.randint(1, 4))
+        if 'S' not in nts:
+            nts[0] = 'S'
+        s = '%start S\n%%\n'
+        for nt in nts:
+            s += nt + ': ' + ' | '.join(' '.join(rng.choice(ts + [x for x in nts]) + rng.choice(['', '', '^', '@m', '@m1']) for _ in range(rng.randint(1, 3))) for _ in range(rng.randint(1, 3))) + (' | ' + rng.choice(ts) if True else '') + ';\n'
+        out.append(('idents-gen-%d' % i, s))
+    return out
+
+
+def c33(pid, spec, tier, seed):
+    """Identifiers in the REAL generated sources: valid Rust (syn parses the files) and distinct where required."""
+    build_parol_bin()
+    res = new_result()
+    rng = random.Random(seed ^ 0x33)
+    wdir = os.path.join(cl.WORK, pid, 'gen')
+    shutil_rm(wdir)
+    os.makedirs(wdir)
+    gs = ident_grammars(rng, 300 if tier == 'thorough' else 40)
+    cs = corpus()
+    rng.shuffle(cs)
+    gs += cs if tier == 'thorough' else cs[:20]
+    from concurrent.futures import ThreadPoolExecutor
+    import re
+
+    def one(job):
+        gi, (name, text) = job
+        d = os.path.join(wdir, 'g%d' % gi)
+        os.makedirs(d)
+        par = os.path.join(d, 'g.par')
+        open(par, 'w').write(text)
+        cmd = [PAROL_BIN, '-f', par, '-p', os.path.join(d, 'parser.rs'), '-a', os.path.join(d, 'trait.rs'), '-t', 'Gr', '-m', 'gr', '-k', '3']
+        p = subprocess.run(cmd, stdout=subprocess.PIPE, stderr=subprocess.STDOUT, text=True, timeout=300)
+        files = [os.path.join(d, f) for f in ('parser.rs', 'trait.rs') if os.path.exists(os.path.join(d, f))]
+        if len(files) < 2:
+            return gi, None, None
+        q = subprocess.run([cl.PV, 'idents'] + files, stdout=subprocess.PIPE, stderr=subprocess.DEVNULL, text=True, env=cl.ENV, timeout=300)
+        rs = [json.loads(l) for l in q.stdout.split('\n') if l.startswith('{')]
+        src = open(files[0]).read()
+        tables = {}
+        for tab in ('TERMINAL_NAMES', 'NON_TERMINALS'):
+            m = re.search(r'pub const %s[^=]*= &\[(.*?)\];' % tab, src, re.S)
+            tables[tab] = re.findall(r'"((?:\\.|[^"])*)"', m.group(1)) if m else []
+        return gi, rs, tables
+
+    with ThreadPoolExecutor(max_workers=cl.NCPU) as ex:
+        outs = list(ex.map(one, enumerate(gs)))
+    for (name, text), (gi, rs, tables) in zip(gs, outs):
+        res['evaluations'] += 1
+        case = json.dumps(dict(name=name, text=text))
+        if rs is None:
+            res['skipped'] += 1
+            res['skip_reasons']['parol rejects the grammar'] = res['skip_reasons'].get('parol rejects the grammar', 0) + 1
+            continue
+        bad = [r for r in rs if not r.get('ok')]
+        dup = [d for r in rs if r.get('ok') for d in r['duplicates']]
+        tdup = [t for tab in tables.values() for t in set(tab) if tab.count(t) > 1]
+        import re as _re
+        if bad:
+            ctx = bad[0].get('context', '')
+            m = _re.search(r'(r#(?:self|Self|crate|super)\b|struct\s+Self\b|struct\s+<|\b_\s*[:(,])', ctx)
+            cls = 'unknown'
+            if m:
+                g = m.group(1)
+                cls = 'raw-keyword' if g.startswith('r#') else ('Self-type' if 'Self' in g else ('empty-type-name' if '<' in g else 'underscore-name'))
+            fail(res, 'invalid-rust-identifier:' + cls, 'syn cannot parse the generated source: %s near %r' % (bad[0].get('error'), ctx[:60]), case)
+        elif tdup:
+            fail(res, 'duplicate-in-name-table', 'duplicate entries in TERMINAL_NAMES / NON_TERMINALS: %s' % tdup[:4], case)
+        elif dup:
+            fail(res, 'duplicate-identifier', 'names that must be distinct coincide: %s' % dup[:4], case)
+        else:
+            res['ok'] += 1
+            res['nontrivial'].add(hashlib.md5(case.encode()).digest())
+            if len(res['samples']) < 2:
+                res['samples'].append(dict(name=name, text=text[:200], names_checked=sum(r['names'] for r in rs)))
+    shutil_rm(wdir)
+    return res
